@@ -29,7 +29,7 @@ type shOpts struct {
 func defaultShOpts() shOpts {
 	return shOpts{
 		gens: []int{1, 2}, nInst: []int{1}, factors: []int64{0, 1, 3, 10, 1000}, maxInts: []int64{0, 2, 20, 100, 500},
-		reserveds: []int64{0, 5, 100}, shareds: []int64{1, 4, 10, 30, 100}, latencies: []int64{0, 1*MS + 7, 40*MS + 13, 700*MS + 3, 2*SEC + 11},
+		reserveds: []int64{0, 5, 100}, shareds: []int64{1, 4, 10, 30, 100}, latencies: []int64{0, 1*MS + 7, 40*MS + 13, 700*MS + 3, 2*SEC + 11, 2*SEC + 11, 15*SEC + 3, 17*SEC + 1},
 		whenModes: []int{0, 1, 2}, faultP: 0.15, nSteps: []int{4, 10, 25}, gapMS: []int64{50, 400, 3000},
 		demands: []int64{0, 1, 3, 7, 10, 25, 90, 100, 1000}, reconfP: 0.0, crashP: 0, lifeP: 0.03, noMgrP: 0.05, horizon: 40 * SEC,
 		provFailP: 0.05,
@@ -243,7 +243,12 @@ func genAcquire(rng *rand.Rand, name string) *SScenario {
 		nf := rng.Intn(4) // faults first, then clean calls
 		for j := 0; j < nf; j++ {
 			lat := pick(rng, int64(0), 1*MS+7, 40*MS+13, 700*MS+3) + rng.Int63n(1000)
-			in.Leases = append(in.Leases, LeaseScript{Latency: lat, When: lat / 2, Mode: 1 + rng.Intn(2)})
+			ls := LeaseScript{Latency: lat, When: lat / 2, Mode: 1 + rng.Intn(2)}
+			if chance(rng, 0.25) { // a call that is granted but comes back only after the lease is over
+				lat = pick(rng, 15*SEC+3, 16*SEC+11, 21*SEC+5)
+				ls = LeaseScript{Latency: lat, When: pick(rng, int64(0), 1*SEC, lat/2)}
+			}
+			in.Leases = append(in.Leases, ls)
 		}
 		lat := pick(rng, int64(0), 1*MS+7, 40*MS+13, 300*MS+3) + rng.Int63n(1000)
 		in.Leases = append(in.Leases, LeaseScript{Latency: lat, When: pick(rng, int64(0), lat/2, lat)})
